@@ -99,7 +99,9 @@ def canon_equal(kind, exported, imported):
         return None
     if kind == "pts":
         i = imported["PTS"]
-        if i.points.shape != exported.points.shape or np.abs(i.points - exported.points).max() > 0.0005 + 1e-9:
+        if i.points.shape != exported.points.shape:
+            return "PTS point count %r, expected %r" % (i.points.shape, exported.points.shape)
+        if np.abs(i.points - exported.points).max() > 0.0005 + 1e-9:
             return "PTS coordinates differ by more than the three-decimal precision (max %.6f)" % np.abs(i.points - exported.points).max()
         return None
     if kind in ("pkl", "pklgz"):
@@ -285,4 +287,66 @@ def run_roundtrip(case):
                 return label + ": float image changes by a quantisation level or more"
         return None
     finally:
+        shutil.rmtree(root, ignore_errors=True)
+
+
+# ---- code -> spec: random long histories recorded from the real library (validated by Trace_IO) ----------
+def record_random(rng, n_ops, names=("lm.v1.ljson", "x.pkl.gz", "p.pts", "m.pkl")):
+    """Execute random export / import / chdir calls on a real temporary tree and log each call with its
+    OBSERVED outcome; for imports the observed object is identified against the pool (0 = matches none)."""
+    from menpo.io.exceptions import OverwriteError
+
+    root = tempfile.mkdtemp(prefix="menpo-iotr-")
+    old = os.getcwd()
+    events = []
+    try:
+        for d in ("A", "B"):
+            os.mkdir(os.path.join(root, d))
+        os.chdir(os.path.join(root, "A"))
+        cwd = "A"
+        for _ in range(n_ops):
+            r = rng.random()
+            if r < 0.12:
+                d = "B" if cwd == "A" else "A"
+                os.chdir(os.path.join(root, d))
+                cwd = d
+                events.append({"op": "chdir", "name": "", "obj": 0, "sp": "", "dir": d, "ow": False, "err": "", "ext": ""})
+                continue
+            name = rng.choice(names + ("q.xyz",)) if r < 0.6 else rng.choice(names)
+            kind = KIND_OF[name]
+            sp = rng.choice(["rel_str", "rel_path", "abs_str", "abs_path"])
+            d = "A" if sp.startswith("rel") else rng.choice(["A", "B"])
+            fp = _spell(sp, root, d, name)
+            err = ""
+            if r < 0.6:
+                obj = 1 if kind == "bad" else rng.choice([1, 2])
+                ow = rng.random() < 0.4
+                ext = "bad" if (kind not in ("bad", "pkl", "pklgz") and rng.random() < 0.15) else ""
+                try:
+                    if kind == "bad":
+                        export("ljson", objects("ljson")[1], fp, overwrite=ow)
+                    elif ext == "bad":
+                        export(kind, objects(kind)[obj], fp, overwrite=ow, extension=BAD_EXT[kind])
+                    else:
+                        export(kind, objects(kind)[obj], fp, overwrite=ow)
+                except OverwriteError:
+                    err = "OverwriteError"
+                except ValueError:
+                    err = "ValueError"
+                events.append({"op": "export", "name": name, "obj": obj, "sp": sp, "dir": d, "ow": ow, "err": err, "ext": ext})
+            else:
+                seen = 0
+                try:
+                    got = imp(kind, fp)
+                    for k, o in objects(kind).items():
+                        if canon_equal(kind, o, got) is None:
+                            seen = k
+                    if seen == 0:
+                        seen = -1          # imported something that is no pooled object
+                except ValueError:
+                    err = "ValueError"
+                events.append({"op": "import", "name": name, "obj": seen, "sp": sp, "dir": d, "ow": False, "err": err, "ext": ""})
+        return {"events": events}
+    finally:
+        os.chdir(old)
         shutil.rmtree(root, ignore_errors=True)
